@@ -1,7 +1,7 @@
 (* Run/JudgeC09.v — case type and judge for the C09 correspondence run (single-knee detectors). *)
 From Coq Require Import ZArith List Arith Bool PrimFloat.
 From Knee Require Import Num NumFloat NpList.
-From Knee Require Export Model.Detectors.
+From Knee Require Export Model.Detectors Model.DetectorsError.
 Import ListNotations.
 
 Notation F := FloatNum.
@@ -17,12 +17,18 @@ Inductive case :=
   | CDfdtG (n : nat) (grad : option (list float)) (t : float) (out : iout)
   (* dfdt.knee on n points; iso = [(c, isodata(grad[c:]))] *)
   | CDfdt (n : nat) (grad : option (list float)) (iso : list (nat * float)) (out : iout)
-  (* menger.knee on n points; mc = [menger_curvature(p[i], p[i-1], p[i+1]) for i in 1..n-2] (None: it raised) *)
-  | CMenger (n : nat) (mc : option (list float)) (out : iout)
-  (* lmethod.get_knee on m points; err = [(i, compute_error(x, y, i, length, fit, cost)[0])] *)
-  | CLmG (m : nat) (err : list (nat * oval float)) (out : iout)
-  (* lmethod.knee on n points; lerr = [((m, i), compute_error(x[:m], y[:m], i, x[m-1]-x[0], fit)[0])] *)
-  | CLm (n : nat) (it : refinement) (limit : nat) (lerr : list (nat * nat * oval float)) (out : iout)
+  (* menger.knee on the points pts; mc = [menger_curvature(p[i], p[i-1], p[i+1]) for i in 1..n-2] (None: it raised) decides;
+     the same values re-derived from Model/Geometry.v are compared with mc under tolerance (x**2.0 is libm pow) *)
+  | CMenger (pts : list (float * float)) (mc : option (list float)) (out : iout)
+  (* lmethod.get_knee(x, y, fit, cost) on the points pts.  The criterion is DERIVED in the model (Model/DetectorsError.v);
+     pres = [((a, b), np.polyfit(x[a:b], y[a:b], 1, full=True) residual)] is the only oracle (Fit.best_fit; empty for point_fit);
+     cerr = [((m, i), lmethod.compute_error(x[:m], y[:m], i, x[m-1]-x[0], fit, cost)[0])] is what the library's composite
+     returns, compared with the derived value bit for bit *)
+  | CLmG (pts : list (float * float)) (fit : lfit) (cost : lcost)
+         (pres : list (nat * nat * oval float)) (cerr : list (nat * nat * oval float)) (out : iout)
+  (* lmethod.knee(points, fit, it, limit): same tables (cost = rmse: knee does not forward it) *)
+  | CLm (pts : list (float * float)) (fit : lfit) (it : refinement) (limit : nat)
+        (pres : list (nat * nat * oval float)) (cerr : list (nat * nat * oval float)) (out : iout)
   (* the same call with the points PRESENTED in another float width (float32): the implementation then computes its criterion
      in that arithmetic, so only the Tier-S clauses (returns normally, interior index) are judged; agreement is indeterminate *)
   | CLoose (c : case).
@@ -93,27 +99,38 @@ Definition judge_strict (c : case) : Z :=
           code (agree_res (@dfdt_knee_res F g (lookup1 iso)) out)
                (holds_loop out (@dfdt_knee_holds F g (lookup1 iso)))
       end
-  | CMenger n mc out =>
+  | CMenger pts mc out =>
+      let n := length pts in
       if n <? 3 then 600%Z else
       match mc with
       | None => code (agree_opt None out) 1
       | Some l =>
           if negb (length l + 2 =? n) then 400%Z else
-          code (agree_opt (@menger_knee F l) out) (@menger_holds F l (iout_opt out))
+          let h := @menger_holds F l (iout_opt out) in
+          code (agree_opt (@menger_knee F l) out)
+               (if (h =? 0)%Z then (if list_all2 (f_close 0x1p-30 0) (@menger_table F pts) l then 0 else 4)%Z else h)
       end
-  | CLmG m err out =>
+  | CLmG pts fit cost pres cerr out =>
+      let m := length pts in
       if m <? 5 then 600%Z else
-      let e := fun i => oget (lookup1 err i) in
-      match @lm_get_knee F e m with
+      let e := @lm_error F (map fst pts) (map snd pts) (fun a b => oget (lookup2 pres a b)) fit cost in
+      if negb (forallb (fun i => match lookup2 cerr m i with Some _ => true | None => false end) (lm_cands m)) then 400%Z else
+      let same := lm_table_same_b f_same e cerr in
+      match @lm_get_knee F (e m) m with
       | OMissing => 400%Z
-      | ORaise => code (agree_opt None out) (@lm_get_knee_holds F e m (iout_opt out))
-      | OVal k => code (agree_opt (Some k) out) (@lm_get_knee_holds F e m (iout_opt out))
+      | ORaise => code (agree_opt None out) 1
+      | OVal k =>
+          let h := @lm_get_knee_holds F (e m) m (iout_opt out) in
+          code (agree_opt (Some k) out) (if (h =? 0)%Z then (if same then 0 else 7)%Z else h)
       end
-  | CLm n it limit lerr out =>
+  | CLm pts fit it limit pres cerr out =>
+      let n := length pts in
       if n <? 5 then 600%Z else
-      let e := fun m i => oget (lookup2 lerr m i) in
+      let e := @lm_error F (map fst pts) (map snd pts) (fun a b => oget (lookup2 pres a b)) fit CostRmse in
+      if negb (forallb (fun i => match lookup2 cerr n i with Some _ => true | None => false end) (lm_cands n)) then 400%Z else
+      let h := holds_loop out (@lmethod_knee_holds F n e it limit) in
       code (agree_res (@lmethod_knee_res F n e it limit) out)
-           (holds_loop out (@lmethod_knee_holds F n e it limit))
+           (if (h =? 0)%Z then (if lm_table_same_b f_same e cerr then 0 else 7)%Z else h)
   | CLoose _ => 600%Z
   end.
 (* conjuncts 1 (returned normally) and 2 (interior index) are the Tier-S clauses of every predicate above *)
@@ -132,10 +149,12 @@ Definition show_strict (c : case) : option nat * res :=
   | CCurv n (Some cv) out => (@curvature_knee F cv, Exc)
   | CDfdtG n (Some g) t out => (@dfdt_get_knee F g t, Exc)
   | CDfdt n (Some g) iso out => (None, @dfdt_knee_res F g (lookup1 iso))
-  | CMenger n (Some l) out => (@menger_knee F l, Exc)
-  | CLmG m err out =>
-      (match @lm_get_knee F (fun i => oget (lookup1 err i)) m with OVal k => Some k | _ => None end, Exc)
-  | CLm n it limit lerr out => (None, @lmethod_knee_res F n (fun m i => oget (lookup2 lerr m i)) it limit)
+  | CMenger pts (Some l) out => (@menger_knee F l, Exc)
+  | CLmG pts fit cost pres cerr out =>
+      (match @lm_get_knee_derived F (map fst pts) (map snd pts) (fun a b => oget (lookup2 pres a b)) fit cost with
+       | OVal k => Some k | _ => None end, Exc)
+  | CLm pts fit it limit pres cerr out =>
+      (None, @lmethod_knee_res_derived F (map fst pts) (map snd pts) (fun a b => oget (lookup2 pres a b)) fit it limit)
   | _ => (None, Exc)
   end.
 Definition show (c : case) : option nat * res :=
